@@ -16,6 +16,7 @@ META = {
                   "erroring path (>=100 requests) are not exercised at these constants.",
     "design_ref": "5.2 C10",
 }
+META["level_text"] += _driver.SYSTEM_LEVEL_TEXT
 
 
 def run(ctx):
